@@ -163,6 +163,118 @@ def _create_journal(journalFile=None):
 # serializer observer
 
 
+CHILDREN = {}        # pid -> {'pid', 'wfd', 'due', 'proc', 'id'}: snapshot children of fork mode that have not been reaped
+
+
+class _ForkOs(object):
+    """Stands for the `os` module inside pysyncobj.serializer so that fork mode (the library's default for
+    file snapshots) runs under virtual time and replays exactly.  fork() really forks: the child holds the
+    copy-on-write memory image of the fork instant, exactly as in production, but waits on a pipe before it
+    writes anything.  waitpid(WNOHANG) answers "still running" until the child's virtual duration (drawn per
+    child) has elapsed, then lets the child go, waits for it for real and reports its status: the dump file
+    is replaced at that virtual instant with the state of the fork instant, while the parent has gone on
+    applying entries, receiving snapshots and losing connections in between."""
+
+    def __getattr__(self, n):
+        return getattr(os, n)
+
+    def fork(self):
+        import sys
+        from . import storage
+        p = CUR
+        if p is not None and p.dead:
+            raise SimKill()
+        rfd, wfd = os.pipe()
+        try:
+            sys.stdout.flush()
+            sys.stderr.flush()
+        except Exception:
+            pass
+        pid = os.fork()
+        if pid == 0:
+            storage.IN_CHILD = True
+            try:
+                os.close(wfd)
+                for ch in CHILDREN.values():
+                    try:
+                        os.close(ch['wfd'])
+                    except OSError:
+                        pass
+                b = os.read(rfd, 1)
+            except BaseException:
+                b = b''
+            if b != b'g':
+                os._exit(99)
+            return 0
+        os.close(rfd)
+        dur = SIM.fork_rng.choice([0.0, 0.0, 0.03, 0.3, 1.5, 6.0]) if SIM is not None else 0.0
+        ch = {'pid': pid, 'wfd': wfd, 'due': CLK.now + dur, 'proc': p, 't0': CLK.now}
+        # fault: the child alone is killed by a signal (out-of-memory killer on the copy-on-write child, an operator's
+        # kill) while its parent lives on and reaps it
+        ch['doomed'] = SIM is not None and SIM.cfg.get('child_faults', True) and SIM.fork_rng.random() < 0.12
+        CHILDREN[pid] = ch
+        if p is not None:
+            p.child = ch
+        if SIM is not None:
+            SIM.mon.obs['fork_children'] += 1
+        return pid
+
+    def waitpid(self, pid, flags):
+        ch = CHILDREN.get(pid)
+        if ch is None:
+            return os.waitpid(pid, flags)
+        if ch.get('signalled'):
+            return finish_child(ch, False)
+        if (flags & os.WNOHANG) and CLK.now < ch['due']:
+            return (0, 0)
+        if ch.get('doomed'):
+            import signal
+            os.kill(pid, signal.SIGKILL)
+            if SIM is not None:
+                SIM.mon.sit['fork_child_killed_by_signal_parent_alive'] += 1
+            return finish_child(ch, False)
+        return finish_child(ch, True)
+
+    def kill(self, pid, sig):
+        ch = CHILDREN.get(pid)
+        r = os.kill(pid, sig)
+        if ch is not None:
+            # the child is waiting on its pipe and has not written anything: a fatal signal ends it there
+            ch['signalled'] = True
+            if SIM is not None:
+                SIM.mon.sit['fork_child_stopped_by_parent'] += 1
+        return r
+
+
+def finish_child(ch, let_run):
+    """let_run: the child writes its snapshot and replaces the dump file now; otherwise it dies before
+    it has written anything (it was killed together with its parent)."""
+    CHILDREN.pop(ch['pid'], None)
+    try:
+        if let_run:
+            os.write(ch['wfd'], b'g')
+    except OSError:
+        pass
+    try:
+        os.close(ch['wfd'])
+    except OSError:
+        pass
+    try:
+        r = os.waitpid(ch['pid'], 0)
+    except OSError:
+        r = (ch['pid'], 0x7f00)
+    p = ch.get('proc')
+    if p is not None and getattr(p, 'child', None) is ch:
+        p.child = None
+    if SIM is not None:
+        SIM.mon.obs['fork_children_finished' if let_run else 'fork_children_killed'] += 1
+        if let_run and r[1] != 0:
+            SIM.mon.obs['fork_children_failed'] += 1
+        if let_run and CLK.now - ch['t0'] > 0:
+            SIM.mon.sit['fork_child_outlived_its_tick'] += 1
+    return r
+
+
 class ObsSerializer(_ORIG_SERIALIZER):
     def __init__(self, *a, **kw):
         _ORIG_SERIALIZER.__init__(self, *a, **kw)
@@ -171,10 +283,15 @@ class ObsSerializer(_ORIG_SERIALIZER):
             CUR.serializer = self
 
     def serialize(self, data, id):
+        from . import storage
         p = self._vproc
         if p is not None and SIM is not None:
             SIM.mon.on_serialize(p, data, id)
-        return _ORIG_SERIALIZER.serialize(self, data, id)
+        try:
+            return _ORIG_SERIALIZER.serialize(self, data, id)
+        finally:
+            if storage.IN_CHILD:        # a snapshot child never returns into the simulation
+                os._exit(70)
 
     def deserialize(self):
         data = _ORIG_SERIALIZER.deserialize(self)
@@ -403,10 +520,22 @@ def kv_apply(d, op, args):
         if len(d['l']) % args[1] == 0:
             d['n'] += 1
             d['h'] = h32(d['h'], op, uid, 'raise')
-            if uid % 3 == 0:
+            k = uid % 8
+            if k == 0:
                 raise ReplRaise()           # exceptions without arguments are exceptions too
-            if uid % 3 == 1:
+            if k == 1:
                 assert False                # message-less assert, like ReplList.reset(<not a list>)
+            if k == 2:
+                raise KeyError(uid)
+            if k == 3:
+                # a replicated method may call into the library (a sync call on another object that times out, ...)
+                raise S.SyncObjException('Timeout')
+            if k == 4:
+                raise IndexError('pop from empty list')
+            if k == 5:
+                raise StopIteration()
+            if k == 6:
+                raise ReplRaise({'uid': uid}, [1, 2])     # non-string, several arguments
             raise ReplRaise(uid)
         r = 'ok'
     else:
@@ -572,6 +701,9 @@ class Sim(object):
         self.mon = Monitors(self)
         S.createJournal = _create_journal
         S.Serializer = ObsSerializer
+        import pysyncobj.serializer as _SERMOD
+        _SERMOD.os = _ForkOs()
+        self.fork_rng = random.Random(seed * 7919 + 5)
         S.createPoller = lambda t: NullPoller()
         install_virtual_time(self._battery_sleep)
         self.msg_cap = cfg.get('msg_cap', 400000)
@@ -614,7 +746,7 @@ class Sim(object):
             raftMinTimeout=c.get('raft_min', 0.4),
             raftMaxTimeout=c.get('raft_max', 1.4),
             appendEntriesPeriod=c.get('ae_period', 0.1),
-            useFork=False,
+            useFork=(c.get('ser_mode') == 'fork'),
         )
         j = c.get('journal', 'memory')
         if key.startswith('ro'):
@@ -624,7 +756,56 @@ class Sim(object):
             kw['journalFile'] = os.path.join(self.scratch(), safe + '.journal')
         if j in ('file+dump', 'dump'):
             kw['fullDumpFile'] = os.path.join(self.scratch(), safe + '.dump')
+            if c.get('ser_mode') in ('user', 'user_async'):
+                kw['_user_serializer'] = c['ser_mode']       # replaced by functions bound to the process in start_proc
         return kw
+
+    def user_serializer_functions(self, p, mode):
+        """Serializer functions a user would supply (conf.serializer / deserializer / serializeChecker): they
+        store the object and consumer state themselves next to the opaque data the library hands them, in the
+        layout the library's own serializer uses (so the on-disk oracle reads both), and restore it on load."""
+        import gzip
+        import pysyncobj.pickle as PK
+        import pysyncobj.serializer as SERMOD
+        from pysyncobj.config import SERIALIZER_STATE
+        sim = self
+
+        def user_ser(fileName, data):
+            last, prev, cluster = data
+            state = {'d': p.obj.d}
+            if p.consumers:
+                state = [state] + [c._serialize() for c in p.consumers]
+            sim.mon.obs['user_serialize_calls'] += 1
+            sim.mon.on_serialize(p, (state, last, prev, cluster), last[1])
+            with getattr(SERMOD, 'open', open)(fileName, 'wb') as f:
+                f.write(gzip.compress(PK.dumps((state, last, prev, cluster))))
+            if mode == 'user_async':
+                p.user_ser_state = {'left': sim.fork_rng.choice([0, 1, 3, 12]), 'fail': sim.fork_rng.random() < 0.1}
+
+        def user_deser(fileName):
+            with open(fileName, 'rb') as f:
+                data = PK.loads(gzip.decompress(f.read()))
+            state = data[0]
+            selfd = state[0] if p.consumers else state
+            p.obj.d = selfd['d']
+            for c, st in zip(p.consumers, state[1:] if p.consumers else []):
+                c._deserialize(st)
+            sim.mon.obs['user_deserialize_calls'] += 1
+            sim.mon.sit['user_serializer_snapshot_loaded'] += 1
+            return tuple(data[1:])
+
+        def checker():
+            st = getattr(p, 'user_ser_state', None)
+            if st is None:
+                return SERIALIZER_STATE.NOT_SERIALIZING
+            if st['left'] > 0:
+                st['left'] -= 1
+                sim.mon.sit['user_async_serializing_observed'] += 1
+                return SERIALIZER_STATE.SERIALIZING
+            p.user_ser_state = None
+            return SERIALIZER_STATE.FAILED if st['fail'] else SERIALIZER_STATE.SUCCESS
+
+        return user_ser, user_deser, (checker if mode == 'user_async' else None)
 
     def make_consumers(self, for_model=False):
         kinds = self.cfg.get('consumers', [])
@@ -650,13 +831,27 @@ class Sim(object):
     def user_class(self):
         return KV
 
+    def final_command(self, p):
+        """A command submitted on p after the cluster converged (bounded-liveness clause of C05)."""
+        return ('S', p.key, 'kv', 'append', ('$UID',))
+
     def start_proc(self, key, addr, others, inc=0, first_tick=True):
         p = Proc(self, key, addr, inc)
         p.clock_off = self.rng.choice([0.0, 12345.0, -500.0, 777.25]) if self.cfg.get('clock_offsets', True) else 0.0
         p.born_step = self.step
+        p.start_others = list(others)
+        prev = self.procs.get(key)
+        p.first_list = getattr(prev, 'first_list', None) if prev is not None else None
+        if p.first_list is None:
+            p.first_list = list(others)
         self.procs[key] = p
         self.all_procs.append(p)
         kw = self.make_conf(key)
+        um = kw.pop('_user_serializer', None)
+        if um is not None:
+            kw['serializer'], kw['deserializer'], chk = self.user_serializer_functions(p, um)
+            if chk is not None:
+                kw['serializeChecker'] = chk
         self.mon.conf_hooks(p, kw)
         conf = SyncObjConf(**kw)
         p.conf = conf
@@ -975,6 +1170,14 @@ class Sim(object):
                 if not c.open[1 - side]:
                     self.conns.pop(c.cid, None)
         from . import storage
+        ch = getattr(p, 'child', None)
+        if ch is not None:
+            # a snapshot child is running: it dies with its parent (before it wrote anything), or - when the
+            # kill fell between two steps - it may as well survive its parent and finish (kill -9 of the parent only)
+            survive = getattr(p, 'killsnap', None) is None and self.fork_rng.random() < 0.5
+            finish_child(ch, survive)
+            if survive:
+                self.mon.sit['fork_child_survived_its_parent'] += 1
         storage.bury(p)
 
     def restart_proc(self, p, kill_k=None):
@@ -1092,7 +1295,25 @@ class Sim(object):
             return ('S', p.key, 'kv', 'cas', ('$UID', rng.randrange(4), rng.choice([None, 100000 + rng.randrange(1, self.uid + 2)])))
         if r < 0.97 or not self.cfg.get('big_args'):
             return ('S', p.key, 'kv', 'popf', ('$UID',))
-        return ('S', p.key, 'kv', 'big', ('$UID', 'x' * rng.choice(self.cfg['big_args'])))
+        return ('S', p.key, 'kv', 'big', ('$UID', 'x' * rng.choice(self.cfg['big_args'] + self.big_exact_sizes())))
+
+    def big_exact_sizes(self):
+        """Argument sizes for which the pickled log entry is (within a byte or two, depending on index and term) an exact
+        multiple of appendEntriesBatchSizeBytes: the boundary of the chunked-entry path."""
+        if getattr(self, '_big_exact', None) is None:
+            import pysyncobj.pickle as PK
+            b = self.cfg.get('batch', 65536)
+            out = []
+            if 40 <= b <= 8192:
+                cmd = b'\x00' + PK.dumps((4, (100123, 'x' * 1000)))
+                ovh = len(PK.dumps((cmd, 25, 1))) - 1000
+                for k in (1, 2, 3):
+                    for d in (-2, -1, 0, 1, 2, 3):
+                        n = k * b - ovh + d
+                        if n > 0:
+                            out.append(n)
+            self._big_exact = out
+        return self._big_exact
 
     def deliver_candidates(self):
         out = []
@@ -1371,6 +1592,8 @@ class Sim(object):
 
     def teardown(self):
         global SIM
+        for ch in list(CHILDREN.values()):
+            finish_child(ch, False)
         for p in self.all_procs:
             try:
                 obj = p.obj
